@@ -216,4 +216,57 @@ theorem isSafe_sound {p : AStmt} (h : isSafe p = true) {s s' : St} (hex : Exec p
   obtain ⟨F', hF⟩ := Option.isSome_iff_exists.mp h
   exact safe_sound hF hex
 
+/-! ### histories of calls
+
+Each call of an entry point starts with its own frame: which variables are bound to which
+objects (`env`) is arbitrary at the start of every call (the caller may have rebound anything in
+between), the heap and the allocation counter are carried over. -/
+
+theorem exec_next_mono {p : AStmt} {s s' : St} (hex : Exec p s s') : s.next ≤ s'.next := by
+  induction hex with
+  | skip s => exact Nat.le_refl _
+  | copy v s => exact Nat.le_succ _
+  | fresh d s c => exact Nat.le_succ _
+  | assign d src s => exact Nat.le_refl _
+  | mutate v s c => exact Nat.le_refl _
+  | seq _ _ iha ihb => exact Nat.le_trans iha ihb
+  | chL _ ih => exact ih
+  | chR _ ih => exact ih
+  | loop0 s => exact Nat.le_refl _
+  | loopS _ _ ihb ihl => exact Nat.le_trans ihb ihl
+
+/-- a history of calls: the programs `ps` executed one after another, each from an arbitrary frame -/
+inductive Hist : List AStmt → St → St → Prop
+  | nil (s) : Hist [] s s
+  | cons {p ps s s' s''} (env' : Nat → Nat) :
+      Exec p ⟨env', s.heap, s.next⟩ s' → Hist ps s' s'' → Hist (p :: ps) s s''
+
+/-- **every history**: after any sequence of calls of accepted programs, of any length and in any
+order, every object that existed before the first call is exactly as it was -/
+theorem hist_untouched {ps : List AStmt} {s s' : St} (hh : Hist ps s s')
+    (hall : ∀ p ∈ ps, isSafe p = true) : s.next ≤ s'.next ∧ ∀ r, r < s.next → s'.heap r = s.heap r := by
+  induction hh with
+  | nil s => exact ⟨Nat.le_refl _, fun _ _ => rfl⟩
+  | @cons p ps s s1 s2 env' hex _ ih =>
+    have hp := hall p (List.mem_cons_self ..)
+    have h1 := isSafe_sound hp hex
+    have hn := exec_next_mono hex
+    have ⟨h2n, h2⟩ := ih (fun q hq => hall q (List.mem_cons_of_mem _ hq))
+    refine ⟨Nat.le_trans hn h2n, fun r hr => ?_⟩
+    have hr1 : r < s1.next := Nat.lt_of_lt_of_le hr hn
+    rw [h2 r hr1]
+    exact h1 r hr
+
+/-- accepted programs may be repeated: `loop p` is accepted whenever `p` is -/
+theorem isSafe_loop {p : AStmt} (h : isSafe p = true) : isSafe (.loop p) = true := by
+  unfold isSafe at *
+  obtain ⟨F', hF⟩ := Option.isSome_iff_exists.mp h
+  simp [safe, hF]
+
+/-- an accepted program never *frees* the analysis from a write: a program containing a write
+through a variable it never made fresh is rejected (completeness on the one-statement shape that
+every real defect of this kind had) -/
+theorem mutate_param_rejected (v : Nat) (rest : AStmt) : isSafe (.seq (.mutate v) rest) = false := by
+  simp [isSafe, safe]
+
 end Pandera.Alias
